@@ -38,7 +38,7 @@ ASSUMPTIONS = [
     "demanded beyond the letter of Go's errors package: none; a target below an opaque foreign error counts as not in the chain",
     "A1/A2 (netsim): a failing Transport.Write delivers nothing, a succeeding one delivers the whole packet; "
     "failure steps: writeFails = Write error, ackLost = connection dies after the broker processed the packet, "
-    "ctxCancel = acknowledgement withheld and the attempt's context cancelled",
+    "ctxCancel = acknowledgement withheld and the attempt's context cancelled, connGone = the client's connection had already ended",
     "foreign error types outside the statement's quantifier (pointer to non-struct, typed nil pointer, uncomparable "
     "value types) are probed and reported under coverage.observations, never as violations",
 ]
@@ -182,6 +182,8 @@ def cmp_retry(exp, res):
     label = "%s[%s]" % (kind, ",".join("%s@%s" % (s, st) for s, st in zip(exp["steps"], exp["stages"])))
     if res.get("infra"):
         raise vlib.Infra("retry scenario %s: %s" % (label, res["infra"]))
+    res["writes"] = res.get("writes") or []
+    res["errs"] = res.get("errs") or []
     stalled = any(e.get("safetyTimeout") for e in res["errs"])
     if stalled:
         return [("C19_RetryStalled", label, "an attempt did not return within the 4 s safety timeout: %s" % json.dumps(res["errs"]))], 1, True
@@ -208,7 +210,8 @@ def cmp_retry(exp, res):
             if not ee["retryable"] and oe["retryIfc"]:
                 out.append(("C19_QoS0Retryable", "%s/%s" % (kind, step), "%s: error %r implements ErrorWithRetry" % (at, oe["text"])))
             ok = {"transportErr": oe["isTransportErr"], "ErrClosedTransport": oe["isClosedTransport"],
-                  "ctxErr": oe["isCtxErr"] and oe["isCanceled"]}[ee["cause"]]
+                  "ctxErr": oe["isCtxErr"] and oe["isCanceled"],
+                  "connEnded": oe["isTransportErr"] or oe["isClosedTransport"]}[ee["cause"]]
             if not ok:
                 out.append(("C19_RetryCauseLost", "%s/%s" % (exp["stages"][a - 1], step),
                             "%s: errors.Is does not find the cause %s in %r" % (at, ee["cause"], oe["text"])))
@@ -220,6 +223,8 @@ def cmp_retry(exp, res):
     req = res["req"]
     by_g = {}
     for w in res["writes"]:
+        if w.get("o") == "closed":
+            continue    # attempted on a connection that had already ended: nothing reached the broker
         by_g.setdefault(w["g"], []).append(w)
     first_id = None
     for w in res["writes"]:
